@@ -238,3 +238,15 @@ Print Assumptions C03_pb_sum_axis_adjoint.
 Print Assumptions C03_pb_sum_all_adjoint.
 Print Assumptions C03_pb_tile_adjoint.
 Print Assumptions C03_pb_diag_adjoint.
+
+(* ---- triangular masks are self-adjoint (they are their own reverse rule inside the factorization pullbacks), and the executable
+   pb_trace (xbar += ybar I on flat row-major data) is the adjoint of the executable trace (Mask.v, MaskSpec.v) *)
+From AlgoV Require Import Mask MaskSpec.
+Theorem C03_tri_mask_self_adjoint (R : comRingType) upper kp kn n m (x y : seq R) : size x = (n * m)%N -> size y = (n * m)%N ->
+  dotp (tri_mask upper kp kn n m x) y = dotp x (tri_mask upper kp kn n m y).
+Proof. exact: tri_mask_self_adjoint. Qed.
+Theorem C03_pb_trace_exec_adjoint (R : comRingType) n (x : seq R) (ybar : R) : size x = (n * n)%N ->
+  trace_fwd n x * ybar = dotp x (pb_trace n ybar).
+Proof. exact: pb_trace_adjoint. Qed.
+Print Assumptions C03_tri_mask_self_adjoint.
+Print Assumptions C03_pb_trace_exec_adjoint.
